@@ -43,6 +43,7 @@ instance : Neg CRat := ⟨fun a => ⟨-a.re, -a.im⟩⟩
 instance : Mul CRat := ⟨fun a b => ⟨a.re * b.re - a.im * b.im, a.re * b.im + a.im * b.re⟩⟩
 def conj (a : CRat) : CRat := ⟨a.re, -a.im⟩
 def normSq (a : CRat) : Rat := a.re * a.re + a.im * a.im
+instance : NatCast CRat := ⟨fun n => ⟨(n : Rat), 0⟩⟩
 instance : Div CRat := ⟨fun a b =>
   let d := normSq b
   ⟨(a.re * b.re + a.im * b.im) / d, (a.im * b.re - a.re * b.im) / d⟩⟩
@@ -291,18 +292,34 @@ def normIndex (n : Nat) (k : Int) : Option Nat :=
   if 0 ≤ k then (if k < n then some k.toNat else none)
   else (if 0 ≤ k + n then some (k + n).toNat else none)
 
-/-- `slice(start, stop, step).indices(n)` expanded to the list of selected positions -/
-def sliceIdx (n : Nat) (start stop step : Option Int) : Option (List Nat) :=
+/-- CPython's `slice(start, stop, step).indices(n)` (`PySlice_Unpack` + `PySlice_AdjustIndices`):
+the normalised triple `(start, stop, step)`; `none` = `ValueError` (step zero).  A missing step is
+1; a missing start / stop is the end of the range the step walks away from / towards
+(`lower`/`upper`, which are `0`/`n` for a positive and `-1`/`n-1` for a negative step); a negative
+start / stop counts from the end and is clamped to `lower`, a too large one to `upper`. -/
+def sliceIndices (n : Nat) (start stop step : Option Int) : Option (Int × Int × Int) :=
   let st := step.getD 1
   if st = 0 then none else
   let lower : Int := if st < 0 then -1 else 0
   let upper : Int := if st < 0 then (n : Int) - 1 else n
-  let clamp (x : Int) : Int := if x < 0 then max (x + n) lower else min x upper
-  let s := match start with | none => (if st < 0 then upper else lower) | some x => clamp x
-  let e := match stop with | none => (if st < 0 then lower else upper) | some x => clamp x
-  let cnt : Nat := if st > 0 then (if s < e then ((e - s + st - 1) / st).toNat else 0)
-                   else (if e < s then ((s - e - st - 1) / (-st)).toNat else 0)
-  some ((List.range cnt).map fun (k : Nat) => (s + (k : Int) * st).toNat)
+  let adj (x : Int) : Int :=
+    if x < 0 then (if x + n < lower then lower else x + n) else (if x > upper then upper else x)
+  let s := match start with | none => (if st < 0 then upper else lower) | some x => adj x
+  let e := match stop with | none => (if st < 0 then lower else upper) | some x => adj x
+  some (s, e, st)
+
+/-- `len(range(s, e, st))` as CPython computes it (`st ≠ 0`) -/
+def rangeLen (s e st : Int) : Nat :=
+  if st > 0 then (if s < e then ((e - s + st - 1) / st).toNat else 0)
+  else (if e < s then ((s - e - st - 1) / (-st)).toNat else 0)
+
+/-- `list(range(s, e, st))` for a range that stays inside the naturals -/
+def rangeList (s e st : Int) : List Nat :=
+  (List.range (rangeLen s e st)).map fun (k : Nat) => (s + (k : Int) * st).toNat
+
+/-- the positions a slice selects: `range(*slice(start, stop, step).indices(n))` -/
+def sliceIdx (n : Nat) (start stop step : Option Int) : Option (List Nat) :=
+  (sliceIndices n start stop step).map fun t => rangeList t.1 t.2.1 t.2.2
 
 /-- positions selected by a list-like index expression -/
 def selIdx (n : Nat) : Index → Except IdxErr (List Nat)
